@@ -29,6 +29,10 @@ EXCL_PATS = ['', 'a', '.h', '!a', 'b|a', '*/a', '**/a', 'a/', '*', '-b', '!a/b',
 FILE_PATS_CASE = ['a', 'A', '[aA]', '*', '!A', 'a|B']
 
 
+# names ending in a newline: `a` and `a\n` are different files, `b` and `b\n` different directories
+ODD_STATE = ['a', 'a\n', 'b\n/', 'b\n/a', 'b/', 'b/a\n', '.h\n']
+
+
 def wflags(fs):
     f = 0
     for ch in fs:
@@ -226,7 +230,9 @@ def plan(tier, seed):
     chunks = [('std', c) for c in st_chunks]
     cs_chunks, cov2 = fscommon.state_chunks(tier, seed, quick=(2, 2, 1), thorough=(3, 3, 1), names=('a', 'A', 'b'), per_chunk=8)
     chunks += [('case', c) for c in cs_chunks]
+    chunks += [('std', [ODD_STATE])]
     cov['case_layer'] = cov2
+    cov['odd_state'] = ODD_STATE
     cov.update({'file_patterns': FILE_PATS, 'exclude_patterns': EXCL_PATS, 'flag_letters': LETTERS,
                 'flag_family': 'all subsets of size <= 2 and their complements (%d sets); each (pair, flag set) with '
                                '(pair index + flag index) %% 3 == 0' % len(covering(LETTERS)), 'exhaustive': True})
